@@ -551,6 +551,25 @@ func main() {
 		}
 	}
 	w("def teLocked : List String := %s", leanList(locked))
+	// … and that mention the lock anywhere else in their body (a window in which the lock is let go)
+	reLock := []string{}
+	for _, fd := range methodsOf(teFiles, "tableEngine") {
+		if startsWithLock(fd, "te", "lock") != "Lock" || fd.Body == nil {
+			continue
+		}
+		n := 0
+		ast.Inspect(fd.Body, func(x ast.Node) bool {
+			if sel, ok := x.(*ast.SelectorExpr); ok && src(sel.X) == "te.lock" {
+				n++
+			}
+			return true
+		})
+		if n != 2 {
+			reLock = append(reLock, fmt.Sprintf("%s:%d", fd.Name.Name, n))
+		}
+	}
+	w("/-- locked tableEngine methods whose body mentions `te.lock` other than in the opening `Lock(); defer Unlock()` -/")
+	w("def teLockWindows : List String := %s", leanList(reLock))
 	smLocked := []string{}
 	smRLocked := []string{}
 	for _, fd := range methodsOf([]*ast.File{smImpl, smInternal}, "seatManager") {
